@@ -12,3 +12,8 @@ H(h_atimes_2d_open, 2, 3, 3, 3, 0, 4)
 H(h_atimes_2d_periodic, 2, 3, 3, 3, 1, 4)
 H(h_atimes_3d_open, 3, 2, 2, 3, 0, 1)
 H(h_atimes_3d_periodic, 3, 2, 2, 3, 1, 1)
+/* mixed periodicity (the two harnesses above have equal flags): periodic in x only, periodic in y only */
+#define HM(NAME, PX, PY, MID) void NAME(void) { g_debug = 0; g_tn = 0; g_p = nondet_int(); g_nx[0] = 3; g_nx[1] = 3; g_nx[2] = 3; k_atimes(2, 3, 3, 3, PX, PY, 0); \
+  if (g_p == 0) __CPROVER_assert(0, "canary: corner point reachable"); if (g_p == MID) __CPROVER_assert(0, "canary: centre point reachable"); }
+HM(h_atimes_2d_px, 1, 0, 4)
+HM(h_atimes_2d_py, 0, 1, 4)
